@@ -14,7 +14,11 @@ _UNFINISHED = re.compile(r"^(\d+)\s+(\w+)\((.*) <unfinished \.\.\.>$")
 
 
 def compile_static_driver(build):
-    return build.compile("rtdrv.c", "rtdrv-static", libs="rt", extra="-static")
+    """Static driver with the shim linked in through --wrap (LD_PRELOAD does not
+    work on static executables): SHIM_SHORT / SHIM_READDIR act on libovni's
+    own write() and readdir() calls."""
+    return build.compile(["rtdrv.c", "shim.c"], "rtdrv-static", libs="rt",
+                         extra="-static -DSHIM_WRAP -Wl,--wrap=write,--wrap=readdir,--wrap=closedir")
 
 
 class StraceRun:
